@@ -561,6 +561,27 @@ type BlankOp struct {
 	Kind  string `json:"kind,omitempty"` // set: static | watching | value-error | watch-error | nil
 	L     WLayer `json:"l"`
 	Valid bool   `json:"-"`
+	// set/watching: the inner watcher reports this value from a goroutine it
+	// starts in Watch, and Watch itself takes a (virtual) second to return
+	Eager *WLayer `json:"eager,omitempty"`
+}
+
+// eagerWatcher is a watching inner source whose background goroutine reports
+// an update as soon as Watch has started it, while Watch itself is slow to
+// return (a file watcher that fires immediately).  Natively that update comes
+// after the initial value; behind a Blank it must as well.
+type eagerWatcher struct {
+	*fake.Watcher
+	eager WLayer
+}
+
+func (w *eagerWatcher) Watch(ctx context.Context, t *dials.Type, args dials.WatchArgs) error {
+	if err := w.Watcher.Watch(ctx, t, args); err != nil {
+		return err
+	}
+	go func() { _ = args.ReportNewValue(ctx, wNative(t.Type(), w.eager)) }()
+	time.Sleep(time.Second)
+	return nil
 }
 
 type C20BlankCase struct {
@@ -574,7 +595,12 @@ func genC20Blank(t *rapid.T) C20BlankCase {
 	for i := 0; i < n; i++ {
 		switch rapid.IntRange(0, 9).Draw(t, "op") {
 		case 0, 1, 2, 3, 4:
-			c.Ops = append(c.Ops, BlankOp{K: "set", Kind: rapid.SampledFrom([]string{"static", "static", "watching", "value-error", "watch-error", "nil"}).Draw(t, "kind"), L: genWLayer(t, i+1)})
+			op := BlankOp{K: "set", Kind: rapid.SampledFrom([]string{"static", "static", "watching", "value-error", "watch-error", "nil"}).Draw(t, "kind"), L: genWLayer(t, i+1)}
+			if op.Kind == "watching" && rapid.Bool().Draw(t, "eager") {
+				e := genWLayer(t, 100+i)
+				op.Eager = &e
+			}
+			c.Ops = append(c.Ops, op)
 		case 5, 6:
 			c.Ops = append(c.Ops, BlankOp{K: "done"})
 		case 7, 8:
@@ -668,6 +694,9 @@ func runC20Blank(c C20BlankCase) (verdict vrt.Verdict) {
 				case "watching":
 					nw = &fake.Watcher{Mk: func(t *dials.Type) reflect.Value { return wNative(t.Type(), l) }}
 					s = nw
+					if op.Eager != nil {
+						s = &eagerWatcher{Watcher: nw, eager: *op.Eager}
+					}
 				case "value-error":
 					s = &fake.Static{Err: errInner}
 				case "watch-error":
@@ -736,6 +765,11 @@ func runC20Blank(c C20BlankCase) (verdict vrt.Verdict) {
 							return
 						}
 						labels["watcher-installed"] = true
+						if op.Eager != nil {
+							// reported after Watch started, i.e. after the initial value
+							blankL = *op.Eager
+							labels["watcher-reports-at-once"] = true
+						}
 					} else {
 						innerStatic = &l
 						labels["static-installed"] = true
@@ -825,7 +859,8 @@ func TestC20Blank(t *testing.T) {
 	vrt.Check(t, vrt.Prop[C20BlankCase]{
 		ID: "C20", Name: "blank",
 		Rule: "scripts of 1..8 operations on a sourcewrap.Blank inside a real Dials (optionally next to another watcher): SetSource(static | watching | failing Value | failing Watch | nil), Done, reports from the inner watcher and from the other watcher; " +
-			"oracle: reference model of Blank - the view always stacks the latest value of each slot, SetSource propagates inner errors and refuses to replace a watching inner source, Blank.Value delegates to the most recently set non-watching inner source, Done ends the watch slot (monitor exits when it was the last) only while Blank still owns it; " +
+			"a watching inner source may report an update from its own goroutine as soon as its (slow) Watch has started; " +
+			"oracle: reference model of Blank - the view always stacks the latest value of each slot (an update reported right after Watch started comes after the initial value, as it would natively), SetSource propagates inner errors and refuses to replace a watching inner source, Blank.Value delegates to the most recently set non-watching inner source, Done ends the watch slot (monitor exits when it was the last) only while Blank still owns it; " +
 			"non-trivial = a refused replacement or a Done call; distinct = distinct case JSON",
 		Assumptions: []string{"Blank is used after Config, as documented"},
 		Gen:         genC20Blank, Run: runC20Blank,
